@@ -131,6 +131,7 @@ struct _ParseContext
   GSList *node_stack;
   char *current_alias;
   GIrNode *current_typed;
+  GIrNode *current_member;
   GList *type_stack;
   GList *type_parameters;
   int type_depth;
@@ -1765,6 +1766,7 @@ start_member (GMarkupParseContext *context,
 
   enum_ = (GIrNodeEnum *)CURRENT_NODE (ctx);
   enum_->values = g_list_append (enum_->values, value_);
+  ctx->current_member = (GIrNode *) value_;
 
   return TRUE;
 }
@@ -2368,6 +2370,24 @@ start_attribute (GMarkupParseContext *context,
   if (ctx->current_typed && ctx->current_typed->type == G_IR_NODE_PARAM)
     {
       g_hash_table_insert (ctx->current_typed->attributes, g_strdup (name), g_strdup (value));
+    }
+  else if (ctx->current_typed &&
+           (ctx->prev_state == STATE_CLASS_FIELD ||
+            ctx->prev_state == STATE_INTERFACE_FIELD ||
+            ctx->prev_state == STATE_BOXED_FIELD ||
+            ctx->prev_state == STATE_STRUCT_FIELD ||
+            ctx->prev_state == STATE_UNION_FIELD ||
+            ctx->prev_state == STATE_CLASS_PROPERTY ||
+            ctx->prev_state == STATE_INTERFACE_PROPERTY ||
+            ctx->prev_state == STATE_CLASS_CONSTANT ||
+            ctx->prev_state == STATE_INTERFACE_CONSTANT))
+    {
+      /* fields, properties and member constants are not on the node stack */
+      g_hash_table_insert (ctx->current_typed->attributes, g_strdup (name), g_strdup (value));
+    }
+  else if (ctx->prev_state == STATE_ENUM && ctx->current_member != NULL)
+    {
+      g_hash_table_insert (ctx->current_member->attributes, g_strdup (name), g_strdup (value));
     }
   else
     {
@@ -3576,7 +3596,10 @@ end_element_handler (GMarkupParseContext *context,
 
     case STATE_ENUM:
       if (strcmp ("member", element_name) == 0)
-	break;
+	{
+	  ctx->current_member = NULL;
+	  break;
+	}
       else if (strcmp ("function", element_name) == 0)
 	break;
       else if (require_one_of_end_elements (context, ctx,
